@@ -1833,7 +1833,7 @@ package pongo2
 //@   invariant 3 {C10,C15} @context-prepared-for-this-template ctx != nil ==> lastarg("(*Template).newContextForExecution", 0) == t
 //@   at (*NodeWrapper).Execute requires {C10,C15} @rendered-in-a-context-prepared-for-its-template lastarg("(*Template).newContextForExecution", 0) == t && arg1 == ctx && ctx != nil
 //@ func (*FSLoader).Get
-//@   propagates {C11} @a-failure-is-passed-on *
+//@   propagates {C11,C20} @a-failure-is-passed-on *
 //@   flag inline
 //@ func NewLocalFileSystemLoader
 //@   propagates {C11} @a-failure-is-passed-on *
@@ -1842,7 +1842,7 @@ package pongo2
 //@   propagates {C11} @a-failure-is-passed-on *
 //@   flag inline
 //@ func (*LocalFilesystemLoader).Get
-//@   propagates {C11} @a-failure-is-passed-on *
+//@   propagates {C11,C20} @a-failure-is-passed-on *
 //@   flag inline
 //@ func NewSandboxedFilesystemLoader
 //@   propagates {C11} @a-failure-is-passed-on *
@@ -1851,7 +1851,7 @@ package pongo2
 //@   propagates {C11} @a-failure-is-passed-on *
 //@   flag inline
 //@ func (*HttpFilesystemLoader).Get
-//@   propagates {C11} @a-failure-is-passed-on *
+//@   propagates {C11,C20} @a-failure-is-passed-on *
 //@   flag inline
 //@ func (*TemplateSet).BanTag
 //@   propagates {C20} @a-failure-is-passed-on *
